@@ -317,7 +317,8 @@ func (m *Map[K, V]) decodeInto(target any) error {
 				return fmt.Errorf("unmarshaling value for key %q: %w", k, err)
 			}
 
-			targetValue.SetMapIndex(reflect.ValueOf(k), nv.Elem())
+			// The key type has kind string, but may be a named type.
+			targetValue.SetMapIndex(reflect.ValueOf(k).Convert(mapType.Key()), nv.Elem())
 			return nil
 		}); err != nil {
 			return err
